@@ -126,6 +126,9 @@ def bytes_to_int(items, little, signed):
         if isinstance(val, SymbolicInt):
             try:
                 setattr(val, _BATTR, (tuple(lsf), n, bool(signed)))
+                if not signed:
+                    setattr(val, _RATTR, BitRep.of_bytes_lsf(
+                        [x.var if isinstance(x, SymbolicInt) else z3.IntVal(int(x)) for x in lsf]))
             except Exception:
                 pass
     return val
@@ -141,6 +144,12 @@ def int_to_byte_list(v, n, little, signed, err):
         if tag is not None and tag[1] == n and tag[2] == bool(signed):
             lsf = list(tag[0])
             return lsf if little else lsf[::-1]
+        rep = getattr(v, _RATTR, None) if isinstance(v, SymbolicInt) else None
+        if rep is not None and not signed and rep.finite_below(8 * n):
+            lsf = []
+            for i in range(n):
+                lsf.append(_mk(BitRep(rep.extract(8 * i, 8 * i + 8), None)))
+            return lsf if little else lsf[::-1]
     if signed:
         lo, hi = -(1 << (8 * n - 1)), (1 << (8 * n - 1)) - 1
     else:
@@ -155,17 +164,12 @@ def int_to_byte_list(v, n, little, signed, err):
             neg = True
     with NoTracing():
         if isinstance(v, SymbolicInt):
-            space = context_statespace()
-            uid = space.uniq()
-            bs = [z3.Int("tb%d%s" % (i, uid)) for i in range(n)]
-            for bvar in bs:
-                space.add(z3.And(bvar >= 0, bvar <= 255))
-            total = z3.IntVal(0)
-            for i, bvar in enumerate(bs):
-                total = total + bvar * z3.IntVal(1 << (8 * i))
+            # bytes are bit slices of v (of v + 256**n for a negative v): bits [8i, 8i+8)
             target = v.var + z3.IntVal(1 << (8 * n)) if neg else v.var
-            space.add(total == target)
-            lsf = [SymbolicInt(bvar) for bvar in bs]
+            rep = getattr(v, _RATTR, None)
+            if rep is None or neg:
+                rep = BitRep.of_term(target)
+            lsf = [_mk(BitRep(rep.extract(8 * i, 8 * i + 8), None)) for i in range(n)]
         else:
             u = int(v) + (1 << (8 * n)) if neg else int(v)
             lsf = [(u >> (8 * i)) & 255 for i in range(n)]
@@ -267,93 +271,57 @@ def _p_Struct_pack(self, *vals):
 # --------------------------------------------------------------------------------------
 # 2. bitwise operators
 # --------------------------------------------------------------------------------------
-# Known-zero bit sets ("Z tags"): Python ints used as infinite bit sets.  Z(v) has bit i set
-# when bit i of v is known to be 0 (two's complement, infinite sign extension).  A value with
-# Z == ~m is known to satisfy v & ~m == 0 ... The tag is attached to the SymbolicInt *object*;
-# values without a tag are unconstrained.
-_ZATTR = "_verif_zero_bits"
+# Every symbolic int may carry a bit-slice representation (vlib/bitrep.py) on the SymbolicInt *object*;
+# masks, shifts and merges of disjoint values re-index slices instead of asking z3 to reason about
+# nested div/mod.  Values without a tag have the trivial representation.
+from vlib.bitrep import BitRep, runs_of_ones as _runs_of_ones  # noqa: E402
+
+_RATTR = "_verif_bitrep"
 
 
-def _z_of(x):
+def _rep(x):
     if isinstance(x, SymbolicInt):
-        return getattr(x, _ZATTR, None)
-    if isinstance(x, int):
-        return ~int(x)
-    return None
+        r = getattr(x, _RATTR, None)
+        return r if r is not None else BitRep.of_term(x.var)
+    return BitRep.of_const(int(x))
 
 
-def _tag(sym, z):
-    if z is not None and isinstance(sym, SymbolicInt):
+def _mk(rep):
+    if not rep.slices and rep.top is None:
+        return 0
+    if rep.top is None and all(z3.is_int_value(base) for _, _, base, _, _ in rep.slices):
+        return z3.simplify(rep.term()).as_long()
+    r = SymbolicInt(rep.term())
+    if not rep.is_trivial():
         try:
-            setattr(sym, _ZATTR, z)
+            setattr(r, _RATTR, rep)
         except Exception:
             pass
-    return sym
-
-
-def _runs_of_ones(m):
-    """m >= 0 -> [(shift, width)]"""
-    runs = []
-    i = 0
-    while m >> i:
-        if (m >> i) & 1:
-            j = i
-            while (m >> j) & 1:
-                j += 1
-            runs.append((i, j - i))
-            i = j
-        else:
-            i += 1
-    return runs
+    return r
 
 
 def _and_const_smt(xvar, m):
-    """z3 term for (x & m), m a Python int >= 0; exact for every integer x."""
-    total = z3.IntVal(0)
-    for s, w in _runs_of_ones(m):
-        total = total + ((xvar / z3.IntVal(1 << s)) % z3.IntVal(1 << w)) * z3.IntVal(1 << s)
-    return z3.simplify(total) if False else total
-
-
-def _and_sym_const(a, m):
-    """a: SymbolicInt, m: concrete int -> a & m (SymbolicInt or int)"""
-    STATS["and"] += 1
-    if m == 0:
-        return 0
-    if m == -1:
-        return a
-    za = _z_of(a)
-    if za is not None and (za | ~m) == -1:
-        # every bit is zero in a or in m
-        return 0
-    if za is not None and (za | m) == -1:
-        # all possibly-set bits of a are inside m
-        return a
-    if m > 0:
-        r = SymbolicInt(_and_const_smt(a.var, m))
-        zr = ~m if za is None else (~m | za)
-        return _tag(r, zr)
-    # m < 0: a & m == a - (a & ~m), ~m >= 0
-    low = _and_const_smt(a.var, ~m)
-    r = SymbolicInt(a.var - low)
-    zr = ~m if za is None else (~m | za)
-    return _tag(r, zr)
+    """z3 term for (x & m), m a Python int; exact for every integer x."""
+    return BitRep.of_term(xvar).and_const(m).term()
 
 
 def _h_and(op, a: Union[SymbolicInt, int], b: Union[SymbolicInt, int]):
     with NoTracing():
+        STATS["and"] += 1
         a_sym, b_sym = isinstance(a, SymbolicInt), isinstance(b, SymbolicInt)
-        if a_sym and not b_sym:
-            return _and_sym_const(a, int(b))
-        if b_sym and not a_sym:
-            return _and_sym_const(b, int(a))
         if a_sym and b_sym:
-            za, zb = _z_of(a), _z_of(b)
-            if za is not None and zb is not None and (za | zb) == -1:
+            if _rep(a).disjoint(_rep(b)):
                 return 0
             STATS["fallback_concretise"] += 1
             return realize(a) & realize(b)
-        return a & b
+        if not a_sym and not b_sym:
+            return a & b
+        x, c = (a, int(b)) if a_sym else (b, int(a))
+        if c == 0:
+            return 0
+        if c == -1:
+            return x
+        return _mk(_rep(x).and_const(c))
 
 
 def _h_or_xor(op, a: Union[SymbolicInt, int], b: Union[SymbolicInt, int]):
@@ -362,44 +330,29 @@ def _h_or_xor(op, a: Union[SymbolicInt, int], b: Union[SymbolicInt, int]):
         a_sym, b_sym = isinstance(a, SymbolicInt), isinstance(b, SymbolicInt)
         if not a_sym and not b_sym:
             return op(a, b)
+        ra, rb = _rep(a), _rep(b)
+        if ra.disjoint(rb):
+            return _mk(ra.merge(rb))
         if a_sym and b_sym:
-            za, zb = _z_of(a), _z_of(b)
-            if za is not None and zb is not None and (za | zb) == -1:
-                r = SymbolicInt(a.var + b.var)
-                return _tag(r, za & zb)
             STATS["fallback_concretise"] += 1
             return op(realize(a), realize(b))
         x, c = (a, int(b)) if a_sym else (b, int(a))
-        if c == 0:
-            return x
-        zx = _z_of(x)
-        if zx is not None and (zx | ~c) == -1:
-            r = SymbolicInt(x.var + z3.IntVal(c))
-            return _tag(r, zx & ~c)
         # x | c = x + c - (x & c);  x ^ c = x + c - 2 (x & c)
-        if c > 0:
-            both = _and_const_smt(x.var, c)
-        else:
-            both = x.var - _and_const_smt(x.var, ~c)
+        both = _rep(x).and_const(c).term()
         k = 1 if op is ops.or_ else 2
-        r = SymbolicInt(x.var + z3.IntVal(c) - k * both)
-        return r
+        return SymbolicInt(x.var + z3.IntVal(c) - k * both)
 
 
 def _h_shift(op, a: Union[SymbolicInt, int], b: int):
-    """symbolic value, concrete shift count: keep the Z tag across shifts."""
+    """symbolic value, concrete shift count"""
     with NoTracing():
         if not isinstance(a, SymbolicInt):
             return op(a, b)
         if b < 0:
             raise ValueError("negative shift count")
-        za = _z_of(a)
-        if op is ops.lshift:
-            r = SymbolicInt(a.var * z3.IntVal(1 << b))
-            z = ((1 << b) - 1) if za is None else ((za << b) | ((1 << b) - 1))
-            return _tag(r, z)
-        r = SymbolicInt(a.var / z3.IntVal(1 << b))
-        return _tag(r, None if za is None else (za >> b))
+        if b == 0:
+            return a
+        return _mk(_rep(a).shl(b) if op is ops.lshift else _rep(a).shr(b))
 
 
 def _h_divmod_const(op, a: SymbolicInt, b: int):
@@ -407,10 +360,65 @@ def _h_divmod_const(op, a: SymbolicInt, b: int):
     z3's Int div/mod with positive divisor are floor division / non-negative remainder."""
     with NoTracing():
         if b > 0:
+            if b & (b - 1) == 0:
+                k = b.bit_length() - 1
+                return _mk(_rep(a).shr(k) if op is ops.floordiv else _rep(a).and_const(b - 1))
             if op is ops.floordiv:
                 return SymbolicInt(a.var / z3.IntVal(b))
             return SymbolicInt(a.var % z3.IntVal(b))
         return SymbolicInt(bl.apply_smt(op, a.var, z3.IntVal(b)))
+
+
+def _h_add(op, a: Union[SymbolicInt, int], b: Union[SymbolicInt, int]):
+    """a + b: values with disjoint bit-slice representations merge structurally"""
+    with NoTracing():
+        a_sym, b_sym = isinstance(a, SymbolicInt), isinstance(b, SymbolicInt)
+        if not a_sym and not b_sym:
+            return a + b
+        if (a_sym and getattr(a, _RATTR, None) is not None) or (b_sym and getattr(b, _RATTR, None) is not None):
+            if not a_sym and a == 0:
+                return b
+            if not b_sym and b == 0:
+                return a
+            ra, rb = _rep(a), _rep(b)
+            if not (ra.is_trivial() or rb.is_trivial()) and ra.disjoint(rb):
+                return _mk(ra.merge(rb))
+        av = a.var if a_sym else z3.IntVal(int(a))
+        bv = b.var if b_sym else z3.IntVal(int(b))
+        return SymbolicInt(av + bv)
+
+
+def _h_mul_const(op, a: Union[SymbolicInt, int], b: Union[SymbolicInt, int]):
+    """x * 2**k re-indexes slices (keeps values built with * and + as structured as those built with << and |)"""
+    with NoTracing():
+        a_sym, b_sym = isinstance(a, SymbolicInt), isinstance(b, SymbolicInt)
+        if a_sym and b_sym:
+            return SymbolicInt(a.var * b.var)
+        if not a_sym and not b_sym:
+            return a * b
+        x, c = (a, int(b)) if a_sym else (b, int(a))
+        if c == 0:
+            return 0
+        if c == 1:
+            return x
+        if c > 0 and c & (c - 1) == 0:
+            return _mk(_rep(x).shl(c.bit_length() - 1))
+        return SymbolicInt(x.var * z3.IntVal(c))
+
+
+def _h_eq_ne(op, a: Union[SymbolicInt, int], b: Union[SymbolicInt, int]):
+    """values whose normalised representations coincide are equal without asking the solver"""
+    with NoTracing():
+        a_sym, b_sym = isinstance(a, SymbolicInt), isinstance(b, SymbolicInt)
+        if not a_sym and not b_sym:
+            return op(a, b)
+        ta = getattr(a, _RATTR, None) if a_sym else None
+        tb = getattr(b, _RATTR, None) if b_sym else None
+        if ta is not None and tb is not None and ta.same_as(tb):
+            return op is ops.eq
+        av = a.var if a_sym else z3.IntVal(int(a))
+        bv = b.var if b_sym else z3.IntVal(int(b))
+        return bl.SymbolicBool(av == bv if op is ops.eq else av != bv)
 
 
 # --------------------------------------------------------------------------------------
@@ -493,6 +501,9 @@ def install():
     setup_binop(_h_or_xor, {ops.or_, ops.xor})
     setup_binop(_h_shift, {ops.lshift, ops.rshift})
     setup_binop(_h_divmod_const, {ops.floordiv, ops.mod})
+    setup_binop(_h_add, {ops.add})
+    setup_binop(_h_mul_const, {ops.mul})
+    setup_binop(_h_eq_ne, {ops.eq, ops.ne})
     bl._BIN_OPS.clear()
     _installed = True
 
@@ -616,8 +627,12 @@ def self_validate(seed=0):
         b = rnd.randrange(-(1 << 20), 1 << 20) & m2
         assert (a | b) == a + b and (a ^ b) == a + b and (a & b) == 0
         n_bits += 1
+    from vlib import bitrep
+    n_bits += bitrep.validate(seed, 300)
+    from vlib import symraw
+    n_seq = symraw.validate(seed)
     lem = _bv_lemmas()
-    return {"struct_cases": n_struct, "bit_cases": n_bits, "bv_lemmas_proved": lem,
+    return {"struct_cases": n_struct, "bit_cases": n_bits, "bv_lemmas_proved": lem, "slice_cases": n_seq,
             "templates": len(raise_site_templates())}
 
 
